@@ -1015,6 +1015,38 @@ func (s *ScopedKeyManager) accountAddrType(acctInfo *accountInfo,
 	return addrSchema.ExternalAddrType
 }
 
+// acctPrivKey returns the extended private key of an account that has one. It
+// must only be called while the manager is unlocked. The key is decrypted on
+// demand when the account was cached while the manager was locked and the
+// unlock that followed did not see it (an account loaded concurrently with
+// Unlock).
+//
+// This function MUST be called with the manager lock held for writes.
+func (s *ScopedKeyManager) acctPrivKey(
+	acctInfo *accountInfo) (*hdkeychain.ExtendedKey, error) {
+
+	if acctInfo.acctKeyPriv == nil {
+		serializedKey, err := s.rootManager.cryptoKeyPriv.Decrypt(
+			acctInfo.acctKeyEncrypted,
+		)
+		if err != nil {
+			str := "failed to decrypt account private key"
+			return nil, managerError(ErrCrypto, str, err)
+		}
+
+		acctInfo.acctKeyPriv, err = hdkeychain.NewKeyFromString(
+			string(serializedKey),
+		)
+		zero.Bytes(serializedKey)
+		if err != nil {
+			str := "failed to regenerate account extended key"
+			return nil, managerError(ErrKeyChain, str, err)
+		}
+	}
+
+	return acctInfo.acctKeyPriv, nil
+}
+
 // nextAddresses returns the specified number of next chained address from the
 // branch indicated by the internal flag.
 //
@@ -1035,7 +1067,10 @@ func (s *ScopedKeyManager) nextAddresses(ns walletdb.ReadWriteBucket,
 	acctKey := acctInfo.acctKeyPub
 	watchOnly := s.rootManager.WatchOnly() || len(acctInfo.acctKeyEncrypted) == 0
 	if !s.rootManager.IsLocked() && !watchOnly {
-		acctKey = acctInfo.acctKeyPriv
+		acctKey, err = s.acctPrivKey(acctInfo)
+		if err != nil {
+			return nil, err
+		}
 	}
 
 	// Choose the branch key and index depending on whether or not this is
@@ -1258,7 +1293,10 @@ func (s *ScopedKeyManager) extendAddresses(ns walletdb.ReadWriteBucket,
 	acctKey := acctInfo.acctKeyPub
 	watchOnly := s.rootManager.WatchOnly() || len(acctInfo.acctKeyEncrypted) == 0
 	if !s.rootManager.IsLocked() && !watchOnly {
-		acctKey = acctInfo.acctKeyPriv
+		acctKey, err = s.acctPrivKey(acctInfo)
+		if err != nil {
+			return err
+		}
 	}
 
 	// Choose the branch key and index depending on whether or not this is
